@@ -90,6 +90,7 @@ class GenInliner:
         """lookup(call) -> (FunctionDef, skip_first, ...) | None, as for the helper inliner"""
         self.lookup = lookup
         self.counter = 0
+        self.bound = {}         # generator local -> (helper, skip_first, {param: Name of the local holding the argument})
 
     def generator(self, call):
         if not isinstance(call, ast.Call):
@@ -108,15 +109,26 @@ class GenInliner:
         return self.generator(e) is not None
 
     def expand(self, loop: ast.For):
-        g = self.generator(loop.iter)
-        if g is None or loop.orelse:
+        pre_bound = isinstance(loop.iter, ast.Name) and loop.iter.id in self.bound
+        if pre_bound:
+            m, skip, binds = self.bound[loop.iter.id]
+        else:
+            g = self.generator(loop.iter)
+            if g is None:
+                return None
+            m, skip = g
+            binds = norm.bind_call(m, loop.iter, skip)
+        # for .. else: the else part runs when the generator is exhausted (its loop ends or it returns), not after the caller's `break`;
+        # supported when the else part leaves the function (it is then simply placed at both ends)
+        orelse = list(loop.orelse)
+        if orelse and not isinstance(orelse[-1], (ast.Raise, ast.Return)):
             return None
-        m, skip = g
-        binds = norm.bind_call(m, loop.iter, skip)
         if binds is None or m.args.vararg or m.args.kwarg:
             return None
         gb = [copy.deepcopy(s) for s in real_body(m)]
         if gb and not any(_own([x], (ast.Yield, ast.YieldFrom)) for x in _own(gb, (ast.While, ast.For))):
+            if orelse or pre_bound:
+                return None
             return self._expand_unlooped(loop, m, skip, binds, gb)
         if not gb or not isinstance(gb[-1], (ast.While, ast.For)) or gb[-1].orelse:
             return None
@@ -145,6 +157,10 @@ class GenInliner:
         y = gl.body[ys[0]]
         bind = ast.Assign(targets=[copy.deepcopy(loop.target)], value=y.value.value)
         gl.body = gl.body[:ys[0]] + [bind] + body + gl.body[ys[0] + 1:]
+        if orelse:
+            if gl.orelse or isinstance(gl, ast.For) and False:
+                return None
+            gl.orelse = [copy.deepcopy(x) for x in orelse]
 
         class R(ast.NodeTransformer):
             def visit_Return(self, node):
@@ -159,7 +175,13 @@ class GenInliner:
 
         class R2(R):
             def visit_Return(self, node):
-                return node if id(node) in keep else ast.copy_location(ast.Break(), node)
+                if id(node) in keep:
+                    return node
+                if orelse:
+                    # the generator ends here: the loop's else part (which leaves the function) runs
+                    return [copy.deepcopy(x) for x in orelse]
+                return ast.copy_location(ast.Break(), node)
+        keep |= set(map(id, _own(gl.orelse, (ast.Return,)))) if orelse else set()
         gl = R2().visit(gl)
         new = inits + pre + [gl]
         for n in new:
@@ -228,12 +250,111 @@ class GenInliner:
                 if new is not None:
                     out += new
                     continue
+                if isinstance(s.iter, ast.Name) and s.iter.id in self.bound:
+                    # not expandable after all: the generator is created here, from the argument locals
+                    m, skip, binds = self.bound[s.iter.id]
+                    fn_ = ast.Attribute(value=ast.Name(id="self", ctx=ast.Load()), attr=m.name, ctx=ast.Load()) if skip else ast.Name(id=m.name, ctx=ast.Load())
+                    s.iter = ast.copy_location(ast.Call(func=fn_, args=[], keywords=[ast.keyword(arg=p_, value=v_) for p_, v_ in binds.items()]), s.iter)
+                    ast.fix_missing_locations(s)
             out.append(s)
         return out
 
 
+def bind_generator_locals(stmts, gi) -> list[ast.stmt]:
+    """g = G(args)  with G a generator helper and g read exactly once in the function, as the iterable of a loop / of any(..):
+    creating the generator only evaluates its arguments; they are bound to locals g__<param> there, and the one place that iterates
+    g runs G's body over those locals (recorded in gi.bound)"""
+    reads: dict[str, int] = {}
+    for s_ in stmts:
+        for n in ast.walk(s_):
+            if isinstance(n, ast.Name) and isinstance(n.ctx, ast.Load):
+                reads[n.id] = reads.get(n.id, 0) + 1
+    stores: dict[str, int] = {}
+    for s_ in stmts:
+        for n in ast.walk(s_):
+            if isinstance(n, ast.Name) and isinstance(n.ctx, (ast.Store, ast.Del)):
+                stores[n.id] = stores.get(n.id, 0) + 1
+
+    def block(b):
+        out = []
+        for s_ in b:
+            for fld in ("body", "orelse", "finalbody"):
+                bb = getattr(s_, fld, None)
+                if isinstance(bb, list) and bb and isinstance(bb[0], ast.stmt) and not isinstance(s_, (ast.FunctionDef, ast.AsyncFunctionDef, ast.ClassDef)):
+                    setattr(s_, fld, block(bb))
+            if isinstance(s_, ast.Try):
+                for h in s_.handlers:
+                    h.body = block(h.body)
+            if isinstance(s_, ast.Assign) and len(s_.targets) == 1 and isinstance(s_.targets[0], ast.Name) and isinstance(s_.value, ast.Call):
+                x = s_.targets[0].id
+                g = gi.generator(s_.value)
+                if g is not None and reads.get(x, 0) == 1 and stores.get(x, 0) == 1:
+                    m, skip = g
+                    binds = norm.bind_call(m, s_.value, skip)
+                    if binds is not None and not m.args.vararg and not m.args.kwarg:
+                        new_binds = {}
+                        for p_, a_ in binds.items():
+                            nm = f"{x}__{p_}"
+                            out.append(ast.fix_missing_locations(ast.copy_location(ast.Assign(targets=[ast.Name(id=nm, ctx=ast.Store())], value=a_), s_)))
+                            new_binds[p_] = ast.Name(id=nm, ctx=ast.Load())
+                        gi.bound[x] = (m, skip, new_binds)
+                        continue
+            out.append(s_)
+        return out
+    return block(list(stmts))
+
+
+def lower_any_guard(stmts, gi) -> list[ast.stmt]:
+    """if not any(P for c in X): A     ->   for c in X: if P: break   else: A          (X a generator helper call or a bound generator local)
+       if any(P for c in X): A         ->   for c in X: if P: A; break"""
+    out = []
+    for s_ in stmts:
+        for fld in ("body", "orelse", "finalbody"):
+            bb = getattr(s_, fld, None)
+            if isinstance(bb, list) and bb and isinstance(bb[0], ast.stmt) and not isinstance(s_, (ast.FunctionDef, ast.AsyncFunctionDef, ast.ClassDef)):
+                setattr(s_, fld, lower_any_guard(bb, gi))
+        if isinstance(s_, ast.Try):
+            for h in s_.handlers:
+                h.body = lower_any_guard(h.body, gi)
+        if isinstance(s_, ast.If) and not s_.orelse:
+            t, neg = s_.test, False
+            while isinstance(t, ast.UnaryOp) and isinstance(t.op, ast.Not):
+                t, neg = t.operand, not neg
+            if isinstance(t, ast.Compare) and len(t.ops) == 1 and isinstance(t.ops[0], (ast.In, ast.NotIn)) and norm.is_pure(t.left) \
+                    and (gi.is_generator_call(t.comparators[0]) or (isinstance(t.comparators[0], ast.Name) and t.comparators[0].id in gi.bound)):
+                # E in <generator>  is  any(E == c for c in <generator>)
+                gi.counter += 1
+                v = f"c_in{gi.counter}"
+                elt = ast.Compare(left=copy.deepcopy(t.left), ops=[ast.Eq()], comparators=[ast.Name(id=v, ctx=ast.Load())])
+                gen = ast.GeneratorExp(elt=elt, generators=[ast.comprehension(target=ast.Name(id=v, ctx=ast.Store()), iter=t.comparators[0], ifs=[], is_async=0)])
+                neg = neg != isinstance(t.ops[0], ast.NotIn)
+                t = ast.Call(func=ast.Name(id="any", ctx=ast.Load()), args=[gen], keywords=[])
+            if isinstance(t, ast.Call) and isinstance(t.func, ast.Name) and t.func.id == "any" and len(t.args) == 1 and not t.keywords \
+                    and isinstance(t.args[0], ast.GeneratorExp) and len(t.args[0].generators) == 1 and not t.args[0].generators[0].is_async:
+                g = t.args[0].generators[0]
+                it = g.iter
+                if gi.is_generator_call(it) or (isinstance(it, ast.Name) and it.id in gi.bound):
+                    conds = list(g.ifs) + [t.args[0].elt]
+                    test = conds[0] if len(conds) == 1 else ast.BoolOp(op=ast.And(), values=conds)
+                    if neg:
+                        loop = ast.For(target=g.target, iter=it, body=[ast.If(test=test, body=[ast.Break()], orelse=[])], orelse=list(s_.body), type_comment=None)
+                    elif not _loop_level(s_.body, (ast.Break, ast.Continue)):
+                        loop = ast.For(target=g.target, iter=it, body=[ast.If(test=test, body=list(s_.body) + [ast.Break()], orelse=[])], orelse=[], type_comment=None)
+                    else:
+                        loop = None
+                    if loop is not None:
+                        ast.copy_location(loop, s_)
+                        ast.fix_missing_locations(loop)
+                        out.append(loop)
+                        continue
+        out.append(s_)
+    return out
+
+
 def inline_generator_loops(stmts, lookup):
     gi = GenInliner(lookup)
+    stmts = bind_generator_locals(stmts, gi)
+    stmts = lower_any_guard(stmts, gi)
     stmts = lower_next(stmts, gi.is_generator_call)
     return gi.rec(stmts)
 
@@ -290,7 +411,7 @@ def search_loop(stmts: list[ast.stmt]) -> SearchLoop:
     """`stmts`: a canonical body (ctx.cfn(.., subst=False).body) of the shape  prefix; while C: B; suffix"""
     from .paths import Path, Summariser, summaries
     loops = [i for i, s in enumerate(stmts) if isinstance(s, ast.While)]
-    if len(loops) != 1 or stmts[loops[0]].orelse:
+    if len(loops) != 1:
         raise NotASearchLoop("expected exactly one top-level while loop")
     i = loops[0]
     lp = stmts[i]
@@ -302,7 +423,9 @@ def search_loop(stmts: list[ast.stmt]) -> SearchLoop:
     assigned = norm._assigned_names(lp.body) | {n.target.id for n in ast.walk(lp.test) if isinstance(n, ast.NamedExpr)}
     # live-in: read in the loop before being written on some path; over-approximated by "known before the loop or a parameter read in the loop"
     reads = {n.id for n in ast.walk(lp) if isinstance(n, ast.Name) and isinstance(n.ctx, ast.Load)}
-    synth = [ast.If(test=ast.UnaryOp(op=ast.Not(), operand=copy.deepcopy(lp.test)), body=[ast.Break()], orelse=[])] + list(lp.body)
+    # (while .. else: the else part runs when the condition fails, not after a `break`: it answers in that iteration, or falls to the suffix)
+    synth = [ast.If(test=ast.UnaryOp(op=ast.Not(), operand=copy.deepcopy(lp.test)), body=[copy.deepcopy(x) for x in lp.orelse] + [ast.Break()], orelse=[])] + list(lp.body)
+    assigned_else = norm._assigned_names(lp.orelse)
     for n in synth:
         ast.fix_missing_locations(n)
     # state variables keep their names inside the iteration (a bare name is the value at the start of the iteration)
